@@ -5,6 +5,8 @@ import EchVerif.Spec.Hello
 import EchVerif.DNS.Text
 import EchVerif.Resolve.Targets
 import EchVerif.Resolve.Resolve
+import EchVerif.Dial.Config
+import EchVerif.Ctx.Lts
 /-
   echdrv: line protocol driver.  One op per input line, one answer per output line.
   Imports no Mathlib (so that it links).  Each handler lives next to the model it drives.
@@ -287,6 +289,45 @@ def resolveOp2 (cw : CacheWorld) (toks : List String) : Option (CacheWorld × St
     some ({ c := r.s }, s!"res={RT.showResult r.result} err={RT.errS r.err} up={up}")
   | _ => none
 
+namespace DT
+open Dial
+def readEch (s : String) : Option (Option EchList) :=
+  if s = "nil" then some none else if s = "boot" then some (some .boot) else (unhex s).map fun b => some (.bytes b)
+def showEch : Option EchList → String
+  | none => "nil" | some .boot => "boot" | some (.bytes b) => hex b
+def readTargets (s : String) : Option (List Target) :=
+  if s = "_" then some [] else (s.splitOn ";").mapM fun x => match x.splitOn "," with
+    | [h, a, e, er] => do some ⟨← unhex h, ← unhex a, ← RT.optB e, er = "1"⟩
+    | _ => none
+def readOutcomes (s : String) : Option (List Outcome) :=
+  if s = "_" then some [] else (s.splitOn ",").mapM fun x =>
+    if x = "ok" then some .ok else if x = "err" then some .err else
+    match x.splitOn ":" with
+    | ["rej", r] => (unhex r).map .reject
+    | _ => none
+end DT
+
+def readObs (s : String) : Option Ctx.Obs :=
+  match s with
+  | "hello" => some .hello | "cancel" => some .cancel | "fire" => some .fire | "clear" => some .clear
+  | "ret-ok" => some .retOk | "ret-err" => some .retErr | _ => none
+
+def dialOp (toks : List String) : Option String :=
+  match toks with
+  | ["ctx-trace", tr] => do
+    let obs ← (tr.splitOn ",").mapM readObs
+    some (if Ctx.accepts obs then "accept" else "reject")
+  | ["dial-cfg", req, pn, sn, cech, targets, outs] => do
+    let d : Dial.Dialer := ⟨req = "1", ← unhex pn⟩
+    let caller : Dial.Cfg := ⟨← unhex sn, ← DT.readEch cech⟩
+    let ts ← DT.readTargets targets
+    let os ← DT.readOutcomes outs
+    let r := Dial.dialSeq d caller ts os
+    let calls := DNS.Text.semi (r.1.map fun c => s!"{hex c.addr},{hex c.cfg.serverName},{DT.showEch c.cfg.ech}")
+    let res := match r.2 with | some a => hex a | none => "fail"
+    some s!"calls={calls} result={res}"
+  | _ => none
+
 def resolveOp (toks : List String) : Option String :=
   match toks with
   | ["targets", net, port, addr, https, add, k] => do
@@ -365,7 +406,10 @@ partial def loop (h : IO.FS.Stream) (out : IO.FS.Stream) (w : World) : IO Unit :
         | none =>
           match resolveOp2 { c := w.cache } toks with
           | some (cw, ans) => out.putStrLn ans; loop h out { w with cache := cw.c }
-          | none => out.putStrLn (handle toks); loop h out w
+          | none =>
+            match dialOp toks with
+            | some ans => out.putStrLn ans; loop h out w
+            | none => out.putStrLn (handle toks); loop h out w
 
 end Drv
 
